@@ -22,7 +22,8 @@ JSON forms (everything is a list so that cases stay JSON-able)
   prim   ["paren", E] | atom
   atom   ["cmp", I, rel, I, tight] | ["len", [num, unit], rel, [num, unit], tight]
          | ["equal", S, S] | ["isodd", I] | ["undef", name] | ["bool", name]
-  I      ["lit", "007"] | ["value", ctr] | ["arabic", ctr] | ["mac", name]
+  I      ["lit", "007"] | ["value", ctr] | ["arabic", ctr] | ["mac", name] | ["neg", I]  (a minus sign in front)
+  a branch [["empty"]] is written {} (no marker, no statements)
   S      [pre_text, macro_or_None, post_text]
   stmt   ["if", E, [stmt...], [stmt...]] | ["while", ctr, i0, E, [stmt...]]
          | ["step", c] | ["add", c, k] | ["set", c, k] | ["setbool", b, word]
@@ -81,6 +82,8 @@ class State(object):
             return self.counters[I[1]]
         if k == "mac":
             return int(self.imacs[I[1]])
+        if k == "neg":
+            return -self.intval(I[1])
         raise ModelError("int operand %r" % (I,))
 
     def strval(self, S):
@@ -202,8 +205,10 @@ def expr_features(E, feats=None, depth=0, top=True):
             feats.add("atom-" + o[2][0])
             if o[2][0] in ("cmp", "isodd"):
                 for I in o[2][1:]:
-                    if isinstance(I, list) and I and I[0] in ("lit", "value", "arabic", "mac"):
+                    if isinstance(I, list) and I and I[0] in ("lit", "value", "arabic", "mac", "neg"):
                         feats.add("int-" + I[0])
+                        if I[0] == "neg":
+                            feats.add("int-neg-" + I[1][0])
     return feats
 
 
@@ -287,6 +292,9 @@ def _not_not_first(E, first):
 # --------------------------------------------------------------------------
 # rendering
 # --------------------------------------------------------------------------
+EMPTY = [["empty"]]
+
+
 def render_int(I):
     k = I[0]
     if k == "lit":
@@ -297,6 +305,8 @@ def render_int(I):
         return "\\arabic{%s}" % I[1]
     if k == "mac":
         return "\\" + I[1]
+    if k == "neg":
+        return "-" + render_int(I[1])
     raise ModelError("int operand %r" % (I,))
 
 
@@ -428,8 +438,9 @@ class Program(object):
             i = self.next_id
             self.next_id += 1
             test = render_expr(s[1], tight)
-            return "\\ifthenelse{%s}{T%d;%s}{F%d;%s}\n" % (
-                test, i, self._render_block(s[2], tight), i, self._render_block(s[3], tight))
+            th = "" if s[2] == EMPTY else "T%d;%s" % (i, self._render_block(s[2], tight))
+            el = "" if s[3] == EMPTY else "F%d;%s" % (i, self._render_block(s[3], tight))
+            return "\\ifthenelse{%s}{%s}{%s}\n" % (test, th, el)
         if k == "while":
             i = self.next_id
             self.next_id += 1
@@ -505,14 +516,22 @@ class Program(object):
                 self.nontrivial = True
                 self.features.add("nontrivial-expr")
             org = ("if", cls)
-            self._emit(("T%d" if val else "F%d") % i, org)
+            taken = s[2] if val else s[3]
+            if taken == EMPTY:
+                self.features.add("empty-branch-taken")
+            else:
+                self._emit(("T%d" if val else "F%d") % i, org)
+            if EMPTY in (s[2], s[3]):
+                self.features.add("empty-branch")
             # ids inside both branches are consumed in source order
             if val:
-                self._run_block(s[2], org, depth + 1, in_loop)
+                if s[2] != EMPTY:
+                    self._run_block(s[2], org, depth + 1, in_loop)
                 self._skip_ids(s[3])
             else:
                 self._skip_ids(s[2])
-                self._run_block(s[3], org, depth + 1, in_loop)
+                if s[3] != EMPTY:
+                    self._run_block(s[3], org, depth + 1, in_loop)
             return
         if k == "while":
             i = self.next_id
